@@ -261,11 +261,17 @@ def run_combo(arg):
             for e in ebs:
                 for val in (e, math.nextafter(e, 0.0), math.nextafter(e, math.inf)):
                     variants.append(({f: val for f in thr_fields}, temps[0], False))
+        # a mantle that exists (> 1e-30 per cm^3) but is negligible per hydrogen nucleus (<= 1e-30): the models gate on
+        # the abundance, not on the density
+        variants.append(({"nH": 1e10}, temps[0], "tiny"))
         for over, (tg, td), icezero in variants:
             if True:
                 PARAMS_V = dict(PARAMS, **over)
                 yv = [1e-6 * (i + 3) for i in range(neq)]
-                if icezero:
+                if icezero == "tiny":
+                    for s in ice_slots:
+                        yv[s] = 2e-29
+                elif icezero:
                     for s in ice_slots:
                         yv[s] = 0.0
                 g = {k: v for k, v in PARAMS_V.items() if k in fields}
